@@ -100,12 +100,15 @@ type c15Script struct {
 	mu         sync.Mutex
 	beh        map[string]*c15Beh
 	hits       map[string]int
-	total      int
+	// done counts, per path and step, the complete 200 responses that left the
+	// list server without a write error.
+	done  map[string]int
+	total int
 	unscripted []string
 }
 
 func c15NewScript() *c15Script {
-	return &c15Script{beh: map[string]*c15Beh{}, hits: map[string]int{}}
+	return &c15Script{beh: map[string]*c15Beh{}, hits: map[string]int{}, done: map[string]int{}}
 }
 
 func (s *c15Script) set(path string, b *c15Beh) {
@@ -117,6 +120,20 @@ func (s *c15Script) set(path string, b *c15Beh) {
 		s.beh[path] = b
 	}
 	s.hits[path] = 0
+	s.done[path] = 0
+}
+
+func (s *c15Script) markDone(path string) {
+	s.mu.Lock()
+	defer s.mu.Unlock()
+	s.done[path]++
+}
+
+func (s *c15Script) doneCount(path string) int {
+	s.mu.Lock()
+	defer s.mu.Unlock()
+
+	return s.done[path]
 }
 
 func (s *c15Script) take(path string) *c15Beh {
@@ -216,24 +233,34 @@ func (s *c15Server) serve(w http.ResponseWriter, r *http.Request) {
 	switch {
 	case b.Kind == "ok-length":
 		h.Set("Content-Length", strconv.Itoa(len(body)))
-		_, _ = w.Write(body)
+		if n, werr := w.Write(body); werr == nil && n == len(body) {
+			s.script.markDone(r.URL.Path)
+		}
 
 		return
 	case b.Kind == "ok-chunked":
 		fl := w.(http.Flusher)
 		piece := len(body)/3 + 1
+		good := true
 		for off := 0; off < len(body); off += piece {
-			_, _ = w.Write(body[off:min(off+piece, len(body))])
+			if _, werr := w.Write(body[off:min(off+piece, len(body))]); werr != nil {
+				good = false
+			}
 			fl.Flush()
 		}
 		fl.Flush()
+		if good {
+			s.script.markDone(r.URL.Path)
+		}
 
 		return
 	case b.Kind == "ok-gzip":
 		gz := c15Gzip(body)
 		h.Set("Content-Encoding", "gzip")
 		h.Set("Content-Length", strconv.Itoa(len(gz)))
-		_, _ = w.Write(gz)
+		if n, werr := w.Write(gz); werr == nil && n == len(gz) {
+			s.script.markDone(r.URL.Path)
+		}
 
 		return
 	case strings.HasPrefix(b.Kind, "status-"):
@@ -1008,6 +1035,20 @@ func (q *c15Seq) step(si int) bool {
 			rep.Event("mtime_bumped_without_rewrite")
 		}
 
+		if l.Src != "file" && b.Level == c15MustSucceed && len(ud) == 0 && q.env.script.doneCount(l.Key) == 0 {
+			// The oracle's premise - the list server delivered a complete
+			// list - does not hold: no complete response left the server in
+			// this step (the client never got through, or the transfer broke
+			// for reasons of the environment), and nothing changed.  That is a
+			// failed refresh that changed nothing; there is nothing to judge.
+			rep.Event("cases_not_judged:no_complete_response_left_the_list_server")
+			hist[fmt.Sprintf("list%d_not_judged", l.Idx)] = fmt.Sprintf("requests seen by the list server: %d, complete responses sent: 0",
+				q.env.script.hitCount(l.Key))
+			rep.Class("outcome:no-complete-response-and-nothing-changed")
+			q.resync(l, bs, as, b)
+
+			continue
+		}
 		var forms [][]byte
 		if len(b.Text.Bytes) > 8<<20 {
 			// The very large text is plain by construction: one reading.
@@ -1338,6 +1379,11 @@ func c15NewSeq(env *c15Env, n int) (q *c15Seq, err error) {
 		q.tr = &http.Transport{DisableKeepAlives: rng.Intn(3) == 0, MaxIdleConnsPerHost: 4}
 		client = &http.Client{Timeout: 60 * time.Second, Transport: q.tr}
 	}
+	if os.Getenv("C15_SELFTEST_NETFAIL") != "" && !env.mem && n >= 5 && n <= 9 {
+		// Self-test of the monitor (docs/notes/C15.md, follow-up 8): the
+		// client cannot reach any list server during these sequences.
+		client = &http.Client{Transport: c15FailingTransport{}}
+	}
 	q.client = client
 	conf := &Config{
 		DataDir:          q.dataDir,
@@ -1652,6 +1698,9 @@ func TestVerifC15Refresh(t *testing.T) {
 		if got := rep.EventCount("steps_with_a_failing_list_whose_stored_file_cannot_be_opened"); got < nSeq/10 {
 			rep.Inconcl(fmt.Sprintf("only %d mixed steps ran with the failing list's stored file unopenable", got))
 		}
+		if got := rep.EventCount("cases_not_judged:no_complete_response_left_the_list_server"); got > nSeq/10 {
+			rep.Inconcl(fmt.Sprintf("%d refreshes never got a complete response from the list server: the loopback network of this machine is not usable", got))
+		}
 		if rep.EventCount("unscripted_requests") > 0 {
 			rep.Inconcl(fmt.Sprintf("%d requests reached the list server outside the script", rep.EventCount("unscripted_requests")))
 		}
@@ -1690,6 +1739,7 @@ func (t *c15MemTransport) RoundTrip(req *http.Request) (*http.Response, error) {
 		resp.Body = io.NopCloser(strings.NewReader("no script"))
 	case strings.HasPrefix(b.Kind, "ok-"):
 		resp.Body = io.NopCloser(bytes.NewReader(b.Text.Bytes))
+		t.script.markDone(req.URL.Path)
 	case strings.HasPrefix(b.Kind, "status-"):
 		resp.Status, resp.StatusCode = fmt.Sprintf("%d %s", b.Status, http.StatusText(b.Status)), b.Status
 		resp.Body = io.NopCloser(bytes.NewReader(b.Text.Bytes))
@@ -1704,4 +1754,11 @@ func (t *c15MemTransport) RoundTrip(req *http.Request) (*http.Response, error) {
 	}
 
 	return resp, nil
+}
+
+// c15FailingTransport fails every request the way an unusable network does.
+type c15FailingTransport struct{}
+
+func (c15FailingTransport) RoundTrip(*http.Request) (*http.Response, error) {
+	return nil, &net.OpError{Op: "dial", Net: "tcp", Err: fmt.Errorf("self-test: network unreachable")}
 }
